@@ -564,6 +564,24 @@ def writers():
     c2 = b.establish("p2", "in")
     b.write("p1", 1, [1]).write("p2", 1, [2]).rclose(c1).write("p1", 1, [3]).write("p2", 1, [4])
     out.append(b.tag("writer").build())
+    # what one peer's connection received (garbage included) never shows up in what corebgp writes to another
+    garbage = {"http": [ord(x) for x in "GET / HTTP/1.1\r\nHost: x\r\n\r\n"], "zeros": [0] * 19, "marker": [0x11] * 16 + [0, 19, 4],
+               "biglen": [0xFF] * 16 + [0xFF, 0xFF, 2] + [0x22] * 60, "upd": update([0x33] * 100)}
+    for gn, g in garbage.items():
+        for st in ("openSent", "established"):
+            ps = [peer("p1", "10.0.0.2", hold=9), peer("p2", "10.0.0.3", remoteAS=65003, hold=9, handlerWrites={"1": [[8, 8]], "2": [[]]}),
+                  peer("p3", "10.0.0.4", remoteAS=65004, passive=True)]
+            b = Sb("wr-polluted-%s-%s" % (gn, st), ps)
+            b.start()
+            c2 = b.establish("p2", "in", rid="10.0.0.3", hold=9)
+            c1 = b.to_state(st, "p1", "in", hold=9)
+            b.send(c1, g).send(c1, g)
+            for k in range(3):
+                b.write("p2", 1, [k] * (k * 7))
+            b.upd(c2, [1]).upd(c2, [2]).adv(3).write("p2", 1, []).adv(3)
+            c3 = b.establish("p3", "in", rid="10.0.0.4")
+            b.write("p3", 1, [5, 5, 5]).adv(1)
+            out.append(b.tag("writer", "polluted").build())
     return out
 
 
@@ -1477,7 +1495,7 @@ def api_races():
         b.adv(6).add("listPeers").add("addPeer", peer="p1").adv(1)
         out.append(b.tag("stop", "apirace").build())
     # a listener whose Close takes a while: the server is closing but still serving
-    for what in ("add", "add-del", "del", "add-conn"):
+    for what in ("add", "add-del", "del", "add-conn", "close", "close-list"):
         b = Sb("race-lisclose-%s" % what, two())
         b.add("addPeer", peer="p1").add("serve").add("lisGate")
         c = b.establish("p1", "in")
@@ -1490,6 +1508,11 @@ def api_races():
             subs += [step("deletePeer", peer="p1"), Y]
         if what == "add-conn":
             subs += [step("connect", conn="cx", src="10.0.0.3:40000", dst="10.0.0.1:179"), Y]
+        if what.startswith("close"):
+            # a second Close overlaps the first: it returns no earlier than the shutdown it joins
+            subs += [step("close"), Y]
+        if what == "close-list":
+            subs += [step("listPeers"), step("close"), Y]
         subs += [step("lisRelease")]
         b.steps.append(multi(*subs))
         b.adv(6).add("listPeers")
@@ -2288,4 +2311,73 @@ def rx_notif_grid():
                 c3 = b.connect()
                 b.open(c3).ka(c3).adv(1)
                 out.append(b.tag("damp" if code != 6 else "nodamp", "rxgrid").build())
+    return out
+
+
+def life_cycle():
+    """C10/C20/C01: Serve / Close in every order: Close before Serve (Serve then returns ErrServerClosed and starts
+    nothing), Close twice, Serve twice, peers added before / after, registry queries after the server stopped."""
+    out = []
+    seqs = {
+        "close-serve": ["add", "close", "serve", "list", "adv"],
+        "close-add-serve": ["close", "add", "serve", "list", "adv"],
+        "close-close-serve": ["add", "close", "close", "serve", "adv", "list"],
+        "serve-close-serve": ["add", "serve", "est", "close", "serve", "list", "get", "adv"],
+        "serve-close-list": ["add", "serve", "est", "close", "list", "get", "add", "del", "del", "list"],
+        "serve-close-close": ["add", "serve", "est", "close", "close", "list"],
+        "serve-serve": ["add", "serve", "adv", "serve2", "adv"],
+        "serve-lisfail-list": ["add", "serve", "est", "lisfail", "adv", "list", "get", "serve", "close", "list"],
+        "empty-close-serve": ["close", "serve", "list"],
+        "close-serve-add": ["close", "serve", "add", "adv", "list", "del", "list"],
+    }
+    for name, seq in seqs.items():
+        for passive in (False, True):
+            if name == "serve-serve" and passive:
+                continue
+            ps = [peer("p1", "10.0.0.2", passive=passive), peer("p2", "10.0.0.3", remoteAS=65003, passive=True)]
+            b = Sb("life-%s-%s" % (name, "pas" if passive else "act"), ps)
+            for o in seq:
+                if o == "add":
+                    b.add("addPeer", peer="p1")
+                elif o == "del":
+                    b.add("deletePeer", peer="p1")
+                elif o == "get":
+                    b.add("getPeer", peer="p1")
+                elif o == "list":
+                    b.add("listPeers")
+                elif o in ("serve", "serve2"):
+                    b.add("serve")
+                elif o == "close":
+                    b.close()
+                elif o == "adv":
+                    b.adv(7)
+                elif o == "lisfail":
+                    b.add("lisFail")
+                elif o == "est":
+                    c = b.establish("p1", "in")
+            out.append(b.tag("stop", "life").build())
+    return out
+
+
+def open_gated(rnd):
+    """C02: OnOpenMessage takes its time (held at a gate) while the remote keeps sending: the capabilities it was
+    given are still the same when it returns (harness oracle), and what follows is handled as usual."""
+    out = []
+    followers = {"ka": keepalive(), "upd": update([0xAA] * 64), "notif": notification(6, 2, [0x55] * 80),
+                 "kaupd": keepalive() + update([0xEE] * 40), "open": None, "junk": [0] * 40}
+    for d in DIRS:
+        for fn, raw in followers.items():
+            caps = [(1, [0, 1, 0, 1]), (64, [0, 120]), (69, [0, 1, 1, 3, 0, 2, 1, 3]), (73, [4, 114, 116, 114, 49, 3, 99, 111, 109]), (2, [])]
+            b = Sb("opengate-%s-%s" % (fn, d), [peer(gates=["OnOpenMessage#1"])])
+            b.extra_caps = tuple(caps)
+            b.start()
+            c = b.to_state("openSent", direction=d)
+            b.open(c)
+            if raw is None:
+                b.open(c)
+            else:
+                b.send(c, raw)
+            b.adv(1).add("release", peer="p1", call="OnOpenMessage", w=1)
+            b.adv(1).adv(70)
+            out.append(b.tag("gate", "opengate").build())
     return out
